@@ -18,6 +18,10 @@ TEXT = {
         level="Proof: C03_sound and C03_complete (hsms_parse bs = Some m <-> frame_wf bs m, where frame_wf is the E37 frame with a lenient E5 item: 1-3 length bytes, any non-zero boolean), C03_unique, item-level soundness/completeness, C03_reencode. Correspondence suite C03: valid encodings, non-minimal rewrites, every truncation, appended bytes, every header/format/length byte altered (exhaustively for short messages), unstructured bytes.",
         note=BASE_NOTE,
         technique="Coq proof (decoder = relational spec, both directions) + differential correspondence on corrupted inputs"),
+    "C14": dict(
+        level="Proof over the constructors as regenerated from hsms.go by the translator (gen/Ctrl.v): C14_layout_req, C14_layout_reject, C14_short_system_bytes, C14_echo (responses echo session id and system bytes, wrong kind refused), C14_bytes, C14_type_function, C14_type_total (all 65,536 (PType, SType) pairs: forallb ... = true by vm_compute, lifted with forallb_forall), C14_decode. Correspondence suite C14 is exhaustive over session ids, status/reason codes and (PType, SType) pairs.",
+        note=BASE_NOTE + " The translation of the eight constructors, Type() and ToBytes() is by gengo's recognised statement forms; an unrecognised form makes CtrlTie.v fail.",
+        technique="Coq proof over translator-generated definitions (reflexivity, finite sweep lifted by forallb_forall) + exhaustive correspondence"),
     "C13": dict(
         level="Proof: C13_header_exact / C13_length_bytes (1 length byte up to 255, 2 up to 65,535, 3 beyond, for all sizes 0..16,777,215 and every type name, by arithmetic), C13_header_refused, C13_constructible_iff, C13_encoding, C13_readback, C13_decoder_reads. Correspondence: getHeaderBytes through the verif hook at every boundary and on random sizes, real items around 255|256 and 65535|65536, Go-side probes at the 16,777,215 limit.",
         note=BASE_NOTE,
